@@ -244,6 +244,12 @@ TrackView(tab, hs, h, x, since) ==
 Increasing(ids) == \A i \in 1..(Len(ids) - 1) : ids[i] < ids[i + 1]
 PropHome(list, h) == /\ {list[i] : i \in 1..Len(list)} = Seen(h)
                      /\ Cardinality({list[i] : i \in 1..Len(list)}) = Len(list)
+(* GET / is documented (docs/output.md) as the list of all *visible*       *)
+(* identifiers: the rows the terminal table currently shows, a subset of   *)
+(* the table keys (empty when no table view is running).  Only that is     *)
+(* demanded; listing every key is not.                                     *)
+PropHomeVisible(list, h) == /\ {list[i] : i \in 1..Len(list)} \subseteq Seen(h)
+                            /\ Cardinality({list[i] : i \in 1..Len(list)}) = Len(list)
 PropTrackOwn(ids, h, x) == \A i \in 1..Len(ids) : ids[i] \in Own(h, x)
 PropTrackKept(ids, h, on) == \A i \in 1..Len(ids) : ids[i] \in 1..Len(h) /\ on /\ h[ids[i]].kept
 PropTrackOrder(ids) == Increasing(ids)
